@@ -304,6 +304,10 @@ def given_weights_error_bound(prog: Program, rep, RID: str, cname: str = "kLeast
                 key = f"{cname}.{mname}:error-bound"
                 if ub is None:
                     raise AnalysisError(f"{cname}.{mname}: error variables without ub")
+                if isinstance(ub, ast.Name):
+                    ldefs_ = local_single_defs(f.node)
+                    if ub.id in ldefs_:
+                        ub = ldefs_[ub.id]
                 txt = norm(ub)
                 covers = any(isinstance(n, ast.Call) and dotted(n.func) == "sum" and n.args and "solution_weights_superset" in norm(n.args[0]) for n in ast.walk(ub))
                 if covers and (not isinstance(ub, ast.Call) or dotted(ub.func) in ("max", "sum")):
